@@ -1,48 +1,47 @@
-(** Known finding K-C09-1 (F1): Tensor.items, as written in /repo today ([items_impl]), applies
-    mode_ordering where its inverse is needed.  The round trip through from_dok / to_dok is therefore
+(** Known finding K-C09-1 (F1): Tensor.items, as written in /repo before the repair ([items_impl]),
+    applies mode_ordering where its inverse is needed.  The round trip through from_dok / to_dok is
     refuted for orderings that are not their own inverse; the stored arrays are right
-    ([items_spec] = Storage.entries reads the same tensor back correctly). *)
+    ([items_spec] = Storage.entries reads the same tensor back correctly).
+    Witness: format d2d0d1, dimensions (2,3,4), entry (0,1,2) -> 1 reads back as (1,2,0). *)
 From Coq Require Import ZArith List. Import ListNotations.
-From TV Require Import spec.Storage model.TensorBuild.
+From TV Require Import spec.Storage model.TensorBuild proofs.TensorBuildLemmas proofs.TensorBuildTop.
 Open Scope Z_scope.
 
 Definition k1_fmt : format := mkFormat [MDense; MDense; MDense] [2; 0; 1]%nat.
 Definition k1_dims : list Z := [2; 3; 4].
 Definition k1_entries : list entry := [([0; 1; 2], 1)].
 
-(** the full-strength statement for a reading function [rd] *)
-Definition roundtrip_statement (rd : tensor Z -> list entry) : Prop :=
-  forall fmt dims es t,
-    valid_formatb fmt = true -> all_in_rangeb dims es = true ->
-    build fmt dims es = Ok t ->
-    forall c v, In (c, v) (rd t) -> In (c, v) es \/ v <> 1.
-
 Lemma items_roundtrip_refuted :
   exists fmt dims es t,
-    valid_formatb fmt = true /\ all_in_rangeb dims es = true /\ build fmt dims es = Ok t /\
-    to_dok_impl t = [([1; 2; 0], 1)] /\        (* what comes back today *)
+    valid_formatb fmt = true /\ dims_okb fmt dims = true /\ all_in_rangeb dims es = true /\
+    build fmt dims es = Ok t /\
+    to_dok_impl t = [([1; 2; 0], 1)] /\        (* what comes back *)
     to_dok_spec t = es /\                       (* what is stored *)
-    to_dok_impl t <> es.
+    ~ (forall c v, In (c, v) (to_dok_impl t) <-> v = sum_at c es /\ v <> 0).
 Proof.
-  exists k1_fmt, k1_dims, k1_entries.
-  eexists. repeat split; try (vm_compute; reflexivity).
-  vm_compute. discriminate.
+  exists k1_fmt, k1_dims, k1_entries. eexists.
+  split; [reflexivity|]. split; [reflexivity|]. split; [reflexivity|].
+  split; [vm_compute; reflexivity|]. split; [vm_compute; reflexivity|]. split; [vm_compute; reflexivity|].
+  intros H. specialize (H [1; 2; 0] 1). destruct H as [H _].
+  destruct H as [H _]; [vm_compute; left; reflexivity|]. vm_compute in H. discriminate.
 Qed.
 
-Lemma items_roundtrip_statement_refuted : ~ roundtrip_statement to_dok_impl.
+(** the full-strength round-trip statement for the reading implemented before the repair
+    (props/C09.v, [C09_roundtrip_impl_full]) is false *)
+Lemma C09_roundtrip_impl_refuted :
+  ~ (forall fmt dims es,
+       valid_formatb fmt = true -> dims_okb fmt dims = true -> all_in_rangeb dims es = true ->
+       exists t, build fmt dims es = Ok t
+         /\ (forall c v, In (c, v) (to_dok_impl t) <-> v = sum_at c es /\ v <> 0)).
 Proof.
-  intro H.
-  destruct (build k1_fmt k1_dims k1_entries) as [t|] eqn:E; [|vm_compute in E; discriminate].
-  specialize (H k1_fmt k1_dims k1_entries t eq_refl eq_refl E [1; 2; 0] 1).
-  vm_compute in E. injection E as <-.
-  destruct H as [H|H].
-  - vm_compute. left. reflexivity.
-  - vm_compute in H. destruct H as [H|[]]. discriminate.
-  - apply H. reflexivity.
+  intros H. destruct (H k1_fmt k1_dims k1_entries eq_refl eq_refl eq_refl) as (t & B & R).
+  vm_compute in B. inversion B; subst t. clear B.
+  specialize (R [1; 2; 0] 1). destruct R as [R _].
+  destruct R as [R _]; [vm_compute; left; reflexivity|]. vm_compute in R. discriminate.
 Qed.
 
-(** to_format loses the entry on the same witness: the wrongly permuted coordinate (1,2,0) is then
-    also outside ... here inside the dimensions (2,3,4), so it is stored at the wrong place. *)
+(** to_format loses the entry on the same witness: it is stored under the wrongly permuted
+    coordinate (1,2,0) in the target *)
 Lemma to_format_refuted :
   exists t t', build k1_fmt k1_dims k1_entries = Ok t /\
     to_format_impl (mkFormat [MCompressed; MCompressed; MCompressed] [0; 1; 2]%nat) t = Ok t' /\
